@@ -191,7 +191,7 @@ def run_shard(spec):
     if spec['kind'] == 'scale':
         # scale grids: frames of up to 257 locals, 65 parameters, arrays of up to 1000 elements, depth 10 - every access inside its own
         # object (M-SAN, generous stack, word sizes in rotation); the frame estimate of the largest ones is swept around S*
-        for k, tag, prog, argsets in common.scale_items(('locals', 'params', 'array', 'nesting', 'globals')):
+        for k, tag, prog, argsets in common.scale_items(('locals', 'params', 'array', 'nesting', 'globals', 'entry')):
             if k % spec['parts'] != spec['part']:
                 continue
             j = k // spec['parts']
